@@ -157,7 +157,18 @@ fn run_case(ctx: &Ctx, index: u64, rep: &mut Report) {
             rep.count(&format!("feature.{}", f));
         }
     }
-    match compare_turns(&real, &model, CmpOpts { tracing: true, warnings: false }) {
+    let cmp = match compare_turns(&real, &model, CmpOpts { tracing: true, warnings: false }) {
+        Err(_) if crate::cmp::compare_flat(&real, &model, CmpOpts { tracing: true, warnings: false }).is_ok()
+            && real.turns.iter().filter(|t| t.was_reply).all(|t| t.outs.iter().filter(|o| matches!(o, crate::drive::Out::Trace(_))).count() <= 1) =>
+        {
+            // only the placement of turn boundaries differs from the model; requests, records between replies,
+            // states, variables and the single statement re-executed by each resuming call all agree
+            rep.count("tolerated.turn_boundaries_differ_from_model");
+            Ok(real.turns.len().min(model.turns.len()))
+        }
+        other => other,
+    };
+    match cmp {
         Ok(n) => {
             let requests = model.turns.iter().filter(|t| t.status == Status::AwaitingInput).count() as u64;
             let reenters = model.turns.iter().flat_map(|t| t.events.iter()).filter(|e| matches!(e, Ev::Reenter)).count() as u64;
@@ -191,8 +202,9 @@ fn run_case(ctx: &Ctx, index: u64, rep: &mut Report) {
                     json!({"program": exec::program_json(&g.prog), "replies": g.replies}));
                 return;
             }
+            let flat = crate::cmp::compare_flat(&real, &model, CmpOpts { tracing: true, warnings: false }).err().unwrap_or_default();
             ctx.violation(rep, "C08", "input-sequence", index,
-                format!("INPUT behaviour differs from the reference: {}", why),
+                format!("INPUT behaviour differs from the reference: {} (flattened comparison: {})", why, flat),
                 json!({"program": exec::program_json(&g.prog), "replies": g.replies, "turn": i + 1,
                        "real_printed": real.printed(), "model_printed": model.printed()}));
         }
